@@ -62,7 +62,12 @@ def judge(scn: dict, tr: dict, offender: str, how: str) -> List[dict]:
         ev2 = [dict(e, data={}) if e["i"] == ridx else e for e in ev]
         tr = dict(tr, events=ev2)
     a = Analysis(scn, tr)
+    # (what set_initial_event means for a time-based simulator is outside this property and outside the
+    # documentation: the step set of such a simulator is not judged here)
+    unsure = {x["sid"] for x in scn["sims"] if x["type"] != "event-based" and x.get("initial_event") is not None}
     for v in a.viol["C02"]:
+        if v.get("sid") in unsure:
+            continue
         if v["kind"] in ("spurious_step", "out_of_order", "undemanded_time", "out_of_range", "not_increasing",
                          "overlapping_steps"):
             out.append(dict(v, kind="corrupted_step_set_" + v["kind"], fault=how, offender=offender))
@@ -80,6 +85,12 @@ def run_slice(job: dict) -> dict:
     for i in range(w, job["n_cases"], W):
         pname = job["profiles"][i % len(job["profiles"])]
         scn = gen_scenario(H(seed, "c13", pname, i) % (1 << 48), PROFILES[pname])
+        if i % 3 == 0:
+            # a time-based simulator whose first step is set with set_initial_event(t0 > 0)
+            tb = [x for x in scn["sims"] if x["type"] == "time-based"]
+            if tb and scn["until"] > 2:
+                tb[0]["initial_event"] = 1 + H(seed, "c13ie", i) % (scn["until"] - 2)
+                C["scenarios_time_based_with_initial_event"] += 1
         base = run_case(scn, {"policy": "random", "seed": i})
         res["evaluations"] += 1
         if base["outcome"]["kind"] != "ok":
